@@ -210,6 +210,7 @@ func c16SchedExplore(t *testing.T, c *ev.Collector, k c16SchedCase) {
 	}
 	e.OnExec = func(x *bsched.Exec) { c.Outcome(c16SchedJudge(c, k, x)) }
 	e.Explore()
+	c.AddExtra("replay_deviations_recovered", int64(len(e.Recovered)))
 	for _, d := range e.Divergences {
 		c.HarnessError("replay divergence in %s: %s", k.key(), d)
 	}
